@@ -520,6 +520,47 @@ func lifeOpenDuringReconnect(id int, mode hsms.OpenMode) *lifeLine {
 	return line
 }
 
+// lifeCloseDuringOpenWait: Open(OpenWaitSelected) is parked waiting for a selection that does not come (active: the
+// peer accepts the TCP connection but never answers Select.req; passive: nobody connects) when another goroutine
+// calls Close. Close must not wait for the Open: it returns within the close timeout, and the Open returns too.
+func lifeCloseDuringOpenWait(id int, passive bool) *lifeLine {
+	line := &lifeLine{T: "life", ID: id, Role: map[bool]string{true: "passive", false: "active"}[passive], Ops: []lifeOp{},
+		CloseTimeoutMs: int(lifeCloseTimeout / time.Millisecond), Kind: "close-during-open-wait"}
+	cut, err := lab.NewCUT(lab.Options{Passive: passive, Sid: 0x0102, T5: lifeT5, T6: 3 * time.Second, T7: 5 * time.Second, BackoffInit: 20 * time.Millisecond, BackoffMult: 1,
+		CloseTimeout: lifeCloseTimeout})
+	if err != nil {
+		line.Fault = err.Error()
+		return line
+	}
+	var pl *peerkit.PeerListener
+	if !passive {
+		pl, _ = peerkit.ListenPeer() // accepts, reads, never answers
+		defer pl.Close()
+		cut.Net.SetTarget(pl.Addr())
+	}
+	openDone := make(chan lifeOp, 1)
+	go func() {
+		t0 := time.Now()
+		ctx, cancel := context.WithTimeout(context.Background(), 3*time.Second)
+		defer cancel()
+		err := cut.Conn.Open(ctx, hsms.OpenWaitSelected)
+		openDone <- lifeOp{G: 0, Op: "Open(wait)", Res: lifeErr(err), Ms: int(time.Since(t0) / time.Millisecond)}
+	}()
+	time.Sleep(60 * time.Millisecond) // the Open is now waiting for Selected
+	t0 := time.Now()
+	cerr := cut.Conn.Close()
+	line.Ops = append(line.Ops, lifeOp{G: 1, Op: "Close", Res: lifeErr(cerr), Ms: int(time.Since(t0) / time.Millisecond)})
+	select {
+	case op := <-openDone:
+		op.Ms = int(time.Since(t0) / time.Millisecond) // how long after Close STARTED the parked Open came back
+		line.Ops = append(line.Ops, op)
+	case <-time.After(3500 * time.Millisecond):
+		line.Ops = append(line.Ops, lifeOp{G: 0, Op: "Open(wait)", Res: "hung", Hung: true, Ms: 3500})
+	}
+	lifeAudit(line, cut, cut.Conn.Close)
+	return line
+}
+
 func runLife(args []string) int {
 	fs := flag.NewFlagSet("life", flag.ExitOnError)
 	n := fs.Int("n", 10, "scenarios (run one after the other: the goroutine audit is process-wide)")
@@ -537,6 +578,8 @@ func runLife(args []string) int {
 	}
 	w.Emit(lifeOpenDuringReconnect(9100, hsms.OpenBackground))
 	w.Emit(lifeOpenDuringReconnect(9101, hsms.OpenWaitSelected))
+	w.Emit(lifeCloseDuringOpenWait(9200, false))
+	w.Emit(lifeCloseDuringOpenWait(9201, true))
 	for i := 0; i < *n; i++ {
 		line := lifeScenario(i+1, *seed*1000+int64(i))
 		if line.Fault != "" {
